@@ -743,14 +743,23 @@ theorem reported_modify (gen : Bool) (dev : Dev) (one : Bool) (m : Modifier) (x 
 theorem reported_remove (gen : Bool) (dev : Dev) (one : Bool) (x : List Frag) (d : JV) :
     (removeM gen dev one x d).Reported := removeM_reported gen dev one x d
 
-/-! ## simple and gen data -/
+/-! ## simple and gen data
 
+`gen_set`, `gen_modify`, `gen_remove` are MODEL AGAINST MODEL: the model run with `gen = true` equals the model run with
+`gen = false` once the one flag it consults on gen data is off. They show that the model has no other gen-specific branch;
+they say nothing about the gen.Array/gen.Object branches of set.go, modify.go, remove.go by themselves. The tie of those
+code paths to the model is the correspondence run only (every case is made on gen data as well, compared with the
+model's gen answer and with the result on simple data). -/
+
+/-- model against model (see the section header): Set/Del on gen data = on simple data when `genUnionOOB` is off -/
 theorem gen_set (dev : Dev) (one : Bool) (a : SetArg) (h : dev.genUnionOOB = false) (x : List Frag) (d : JV) :
     setM true dev one a x d = setM false dev one a x d := setM_gen dev one a h x d
 
+/-- model against model: Modify on gen data = on simple data when `genModifyNil` is off -/
 theorem gen_modify (dev : Dev) (one : Bool) (m : Modifier) (h : dev.genModifyNil = false) (x : List Frag) (d : JV) :
     modifyM true dev one m x d = modifyM false dev one m x d := modifyM_gen dev one m h x d
 
+/-- model against model: Remove on gen data = on simple data when `genModifyNil` is off -/
 theorem gen_remove (dev : Dev) (one : Bool) (h : dev.genModifyNil = false) (x : List Frag) (d : JV) :
     removeM true dev one x d = removeM false dev one x d := removeM_gen dev one h x d
 
